@@ -30,7 +30,7 @@ def run(ck):
     U16 = ("uint16_t", "unsigned short")
     is_inv = lambda e: e["k"] == "throw" and "invalid_argument" in (e.get("type") or "")
 
-    def throwing_guards(f, sink):
+    def throwing_guards(f, sink, entry=None):
         """references of the decisions that stand between the function's entry and `sink` and whose other way out always throws
         invalid_argument -- whatever the spelling (`if (bad || bad2) throw;` before the sink, or `if (ok && ok2) <sink>; throw;`)"""
         refs, txt = set(), []
@@ -39,7 +39,7 @@ def run(ck):
             if not t or len(b.succs) != 2 or None in b.succs:
                 continue
             for k in (0, 1):
-                if cfg.edge_dominates(f, b.id, k, sink):
+                if cfg.edge_dominates(f, b.id, k, sink, entry=entry):
                     other = b.succs[1 - k]
                     # following the rest of a short-circuit chain on the other side is fine as long as every way out throws
                     quiet = [x for x in cfg.exits_without(f, is_inv, start_block=other) if x.kind != "throw"]
@@ -47,6 +47,30 @@ def run(ck):
                     if not quiet and not reaches or (reaches and t.get("k") in ("lor", "land")):
                         refs |= set(t.get("leafrefs") or t.get("refs") or [])
                         txt.append(t.get("cond") or "")
+        # a decision on a bool local is a decision on what the local was computed from (`const bool inRange = a && b; if (!inRange) throw`)
+        grown = True
+        while grown:
+            grown = False
+            for d_ in f.events("decl"):
+                if d_.get("var") and ("v:" + d_["var"]) in refs and "bool" in (d_.get("ctype") or d_.get("type") or ""):
+                    more = set(d_.get("refs") or [])
+                    # the operands of the initialiser are evaluated in the blocks before the declaration (short-circuit chains)
+                    for e_ in f.events(("cmp", "call", "member", "deref")):
+                        if e_.get("l") == d_.get("l") and e_.get("fl") == d_.get("fl"):
+                            more |= set(e_.get("refs") or [])
+                            for side in ("lhs", "rhs"):
+                                sv = e_.get(side) or {}
+                                if sv.get("v"):
+                                    more.add("v:" + sv["v"])
+                                if sv.get("root"):
+                                    more.add("v:" + sv["root"])
+                                if "Port::max()" in (sv.get("t") or ""):
+                                    more.add("c:" + P + "Port::max")
+                                if "Port::min()" in (sv.get("t") or ""):
+                                    more.add("c:" + P + "Port::min")
+                    if not more <= refs:
+                        refs |= more
+                        grown = True
         return refs, txt
 
     def conversion_facts(f):
@@ -57,6 +81,11 @@ def run(ck):
             endp = ((a1.get("t") or "").lstrip("&")) if (a1.get("t") or "").startswith("&") else None
             if d:
                 return d[0]["var"], endp, "strtol"
+            # `long port = <default>; ... port = strtol(..)`: the value is assigned, not declared, from the conversion
+            a_ = [x for x in f.events("assign") if x.block == e.block and x.idx > e.idx and (x.get("lhs") or {}).get("v") and
+                  re.sub(r"\s+", "", e.get("t") or "") in re.sub(r"\s+", "", (x.get("rhs") or {}).get("t") or "")]
+            if a_:
+                return a_[0]["lhs"]["v"], endp, "strtol"
         for e in f.calls(lambda e: strip_tmpl(e.get("callee") or "") == "std::from_chars"):
             if len(e.get("args", [])) >= 3 and e["args"][2].get("v"):
                 rv_ = [x["var"] for x in f.events("decl") if strip_tmpl(x.get("icall") or "") == "std::from_chars" and x.get("var")]
@@ -64,7 +93,10 @@ def run(ck):
         return None
 
     def check_sink(f, sink, src, endp, kind):
-        chain_refs, _txt = throwing_guards(f, sink)
+        # the decisions between the conversion and the sink (a way to the sink that by-passes the conversion -- a default value --
+        # has nothing to validate)
+        conv_ = [e for e in f.calls(lambda e: (e.get("callee") or "") in ("strtol", "std::strtol") or strip_tmpl(e.get("callee") or "") == "std::from_chars")]
+        chain_refs, _txt = throwing_guards(f, sink, entry=conv_[0].block if conv_ else None)
         end_derived = lib.derived_vars(f, {endp}) if endp else set()
         has_val = ("v:" + src) in chain_refs
         has_max = "c:" + P + "Port::max" in chain_refs
@@ -120,6 +152,36 @@ def run(ck):
                 ck.ob("C19-R1", "%s/range-checked-narrowing" % f.base.replace(P, ""), False, c.loc, f,
                       "the port number is converted with %s, which gives no end position to test: digits followed by other text are accepted" % conv_)
     ck.require(nconv >= 1, "functions that convert text to a port number: %d found" % nconv)
+    # the bounds themselves are valid ports: the converted value is compared with Port::max() only by `>` / `<=` and with Port::min()
+    # only by `<` / `>=` (whichever way round and on whichever arm) -- `<` / `>=` against max or `>` / `<=` against min puts the bound on
+    # the rejecting side
+    SWP = {"<": ">", ">": "<", "<=": ">=", ">=": "<=", "==": "==", "!=": "!="}
+    nb = 0
+    for f in targets:
+        cf = conversion_facts(f)
+        if not cf:
+            continue
+        src = cf[0]
+        comps = [(e.get("op"), e.get("lhs") or {}, e.get("rhs") or {}, e) for e in f.events("cmp")]
+        comps += [(b.term.get("cmp"), b.term.get("lhs") or {}, b.term.get("rhs") or {}, b.elems[-1] if b.elems else None) for b in f.blocks.values() if b.term and b.term.get("cmp")]
+        seen_ = set()
+        for op, l_, r_, ev_ in comps:
+            for a_, o_, op_ in ((l_, r_, op), (r_, l_, SWP.get(op))):
+                if a_.get("v") != src or op_ is None:
+                    continue
+                ot = re.sub(r"\s+", "", o_.get("t") or "")
+                which = "max" if ot.endswith("Port::max()") or ot in ("65535", "UINT16_MAX") or "numeric_limits<uint16_t>::max()" in ot else \
+                        "min" if ot.endswith("Port::min()") or ot == "0" else None
+                key_ = (f.id, which, op_, (ev_.get("l") if ev_ is not None else 0))
+                if which is None or key_ in seen_:
+                    continue
+                seen_.add(key_)
+                nb += 1
+                good = op_ in ((">", "<=") if which == "max" else ("<", ">="))
+                ck.ob("C19-R1", "%s/bound-%s-is-a-valid-port" % (f.base.replace(P, ""), which), good, ev_.loc if ev_ is not None else f.loc, f,
+                      "%s %s Port::%s()" % (src, op_, which) if good else
+                      "`%s %s Port::%s()`: the %s valid port number itself falls on the rejecting side of this test" % (src, op_, which, "largest" if which == "max" else "smallest"))
+    ck.require(nb >= 1, "comparisons of the converted number with the port bounds: %d found" % nb)
     # narrowing casts elsewhere in the parser take the result of such a validating helper (directly or through a local)
     for f in [f for f in prog.library_funcs() if in_net(f) and f.blocks and f not in targets]:
         hv = {d_["var"] for d_ in f.events("decl") if d_.get("var") and strip_tmpl(d_.get("icall") or "") in validated_helpers}
@@ -161,7 +223,12 @@ def run(ck):
         reached_on_empty = all(any(cfg.edge_dominates(ai, bid, k, e) for bid, k in empt) or
                                not any(any(x is e for x in cfg.events_from_block(ai, ai.blocks[bid].succs[k])) for bid, k in nonempty) for e in hc_call) and bool(empt or nonempty)
         ck.ob("C19-R2", "Address::init/empty-port-after-colon-rejected", thr_ok and reached_on_empty, ai.loc, ai, "portPart.empty() && hasColon() throws invalid_argument")
-        dflt = [e for bid, k in nocolon for e in cfg.events_from_block(ai, ai.blocks[bid].succs[k]) if e["k"] in ("call", "assign", "construct", "return") and "HTTP_STANDARD_PORT" in (e.get("t") or "")]
+        # the default is taken (stored directly, or put into the local that is stored) on the way that has neither a port nor a colon:
+        # an event that mentions the constant and lies neither on the non-empty-port edge nor on the colon edge
+        def mentions_default(e):
+            return "HTTP_STANDARD_PORT" in ((e.get("t") or "") + ((e.get("init") or {}).get("t") or "")) or any("HTTP_STANDARD_PORT" in r_ for r_ in (e.get("refs") or []))
+        dflt = [e for e in ai.events(("call", "assign", "construct", "return", "decl")) if mentions_default(e)
+                and not any(cfg.edge_dominates(ai, bid, k, e) for bid, k in nonempty) and not any(cfg.edge_dominates(ai, bid, k, e) for bid, k in colon)]
         ck.ob("C19-R2", "Address::init/default-port-constant", bool(dflt), dflt[0].loc if dflt else ai.loc, ai, "port_ = Const::HTTP_STANDARD_PORT when no port is given")
     ap = [f for f in prog.find(P + "AddressParser::AddressParser", 1)][0]
     pt = [b for b in ap.blocks.values() if b.term and b.term.get("k") == "if" and "empty" in (b.term.get("cond") or "") and ("f:" + P + "AddressParser::port_") in (b.term.get("refs") or [])]
